@@ -198,11 +198,101 @@ func driverOracle(c *Case) (tooFew int, err error) {
 	return tooFew, nil
 }
 
+// overlapOracle: one statement prepared on a fixed connection (Tx.Prepare) is
+// executed twice BEFORE the first result set is read; each result set must
+// still hold its own execution's rows.
+func overlapOracle(c *Case) error {
+	need := int(c.Tree.MaxPH())
+	var lists [][]Arg
+	for _, e := range c.Execs {
+		if len(e) == need {
+			lists = append(lists, e)
+		}
+	}
+	if len(lists) < 2 {
+		return nil
+	}
+	rows := c.Data.Rows()
+	d := model.NewData(rows)
+	dir := fix.CaseDir()
+	defer os.RemoveAll(dir)
+	path, _, err := fix.Build(dir, rows, fix.WMemFile)
+	if err != nil {
+		return fmt.Errorf("INFRA: %v", err)
+	}
+	db, err := sql.Open("updog", "file:"+path)
+	if err != nil {
+		return err
+	}
+	defer db.Close()
+	text := queryparser.QueryToString(&pb.Query{Expr: c.Tree.PB(), GroupBy: c.GroupBy})
+	return fix.Safe(func() error {
+		tx, err := db.Begin()
+		if err != nil {
+			return err
+		}
+		defer tx.Rollback()
+		st, err := tx.Prepare(text)
+		if err != nil {
+			return fmt.Errorf("Tx.Prepare(%+q): %v", text, err)
+		}
+		defer st.Close()
+		var open []*sql.Rows
+		var wants []*model.Result
+		defer func() {
+			for _, r := range open {
+				r.Close() // idempotent; an unread result set must not outlive the transaction
+			}
+		}()
+		for _, e := range lists[:2] {
+			args := make([]any, len(e))
+			texts := make([]string, len(e))
+			for i, a := range e {
+				args[i], texts[i] = a.any(), a.text()
+			}
+			bound, _ := c.Tree.Bind(texts)
+			be := bound.Model()
+			r, qerr := st.Query(args...)
+			if d.Rejects(be, c.GroupBy) {
+				if qerr == nil {
+					r.Close()
+					return fmt.Errorf("query on an unknown column returned rows")
+				}
+				return nil
+			}
+			if qerr != nil {
+				return fmt.Errorf("overlapping execution of %+q args %q: %v", text, texts, qerr)
+			}
+			w := d.Query(be, c.GroupBy)
+			open, wants = append(open, r), append(wants, &w)
+		}
+		for i, r := range open {
+			got, err := fix.ScanAll(r)
+			if err != nil {
+				return err
+			}
+			if err := fix.CheckRows(got, c.GroupBy, *wants[i]); err != nil {
+				return fmt.Errorf("statement %+q executed twice before reading: result set %d (read after both executions) is wrong: %v", text, i, err)
+			}
+		}
+		return nil
+	})
+}
+
 func oracle(c *Case) (int, error) {
 	if err := libOracle(c); err != nil {
 		return 0, err
 	}
-	return driverOracle(c)
+	n, err := driverOracle(c)
+	if err != nil {
+		return n, err
+	}
+	if c.Prepare {
+		if err := overlapOracle(c); err != nil {
+			return n, err
+		}
+	}
+	return n, nil
 }
 
 func run(t interface{ Fatalf(string, ...any) }, c *Case) {
